@@ -74,7 +74,7 @@ def seeds() -> list[str]:
            "114 confirmed changes (of about 120 written) come from fresh sub-agents that saw only the text of one property and their own scratch",
            "worktree of /repo — nothing from /verif (round 1: `*_a`, `*_b` against the pinned tree + the first two repairs;",
            "round 2: `*_c`, `*_d` against the repaired tree, told only which files earlier seeds had touched; round 3:",
-           "`*_e`, `*_f` against the frozen tree with 72 repairs, told to look for a mechanism no earlier seed used). Each was",
+           "`*_e`, `*_f` against the frozen tree with 71 repairs, told to look for a mechanism no earlier seed used). Each was",
            "confirmed by the integrator in a scratch worktree (`harness/seed_confirm.sh`: demo passes clean, fails patched,",
            "suite has no new failure vs BASELINE.json) and stored under `seeded/<name>/` (patch.diff, demo, meta.json, and",
            "result.json written by `harness/seeded.py`, which applies the patch to a scratch worktree — never to /repo — and",
